@@ -4,7 +4,7 @@ CONSTANTS
   Hi = 255
   Starts <- U8t
   Ends <- U8t
-  Steps <- U8t
+  Steps <- U8ts
   Wraps = TRUE
   PrintRows = TRUE
 INVARIANTS TypeOK NeedsNoValueOutsideT YieldsTheSequence StopsAtTheEnd DenotationConsistent RejectedOnlyWhenSpecified Emit
